@@ -60,24 +60,25 @@ type SiteInfo struct {
 }
 
 type WorkerOut struct {
-	Sites          map[string]SiteInfo `json:"sites"`
-	Cases          int                 `json:"cases"`
-	HistCases      int                 `json:"history_cases"`
-	HistByLen      map[string]int      `json:"history_cases_by_shape"`
-	Deliveries     int                 `json:"deliveries"`
-	NonTrivial     int                 `json:"nontrivial"`
-	HistNonTrivial int                 `json:"history_nontrivial"`
-	Outcomes       map[string]int      `json:"outcomes"`
-	Classes        []Class             `json:"classes"`
-	Samples        []Obs               `json:"samples"`
-	ClockReads     int64               `json:"clock_reads"`
-	FreshRejected  int                 `json:"fresh_rejected"`
-	Exhaustive     bool                `json:"exhaustive"`
-	Errors         []string            `json:"errors"`
-	Retried        int                 `json:"cases_retried"` // cases re-run once because a handler could not be driven
-	GridOffsets    map[string]int      `json:"grid_offsets"`
-	GridDelays     map[string]int      `json:"grid_delays"`
-	AcceptedOrigin map[string]int      `json:"accepted_originals"`
+	Sites           map[string]SiteInfo `json:"sites"`
+	Cases           int                 `json:"cases"`
+	HistCases       int                 `json:"history_cases"`
+	HistByLen       map[string]int      `json:"history_cases_by_shape"`
+	Deliveries      int                 `json:"deliveries"`
+	NonTrivial      int                 `json:"nontrivial"`
+	HistNonTrivial  int                 `json:"history_nontrivial"`
+	Outcomes        map[string]int      `json:"outcomes"`
+	Classes         []Class             `json:"classes"`
+	Samples         []Obs               `json:"samples"`
+	ClockReads      int64               `json:"clock_reads"`
+	FreshRejected   int                 `json:"fresh_rejected"`
+	Exhaustive      bool                `json:"exhaustive"`
+	Errors          []string            `json:"errors"`
+	DenseDelaysDone int                 `json:"dense_delays_done"` // thorough: whole-second delays of the dense grid completed (all sites)
+	Retried         int                 `json:"cases_retried"`     // cases re-run once because a handler could not be driven
+	GridOffsets     map[string]int      `json:"grid_offsets"`
+	GridDelays      map[string]int      `json:"grid_delays"`
+	AcceptedOrigin  map[string]int      `json:"accepted_originals"`
 	// sweep/eviction periods of the nonce cache: every package-level time.Duration constant or variable
 	// of nonce_cache.go (name -> ns), read from the compiled package; the history grid is built around them
 	Intervals        map[string]int64   `json:"cache_duration_constants"`
